@@ -25,16 +25,17 @@ type hqRow struct {
 
 // HQCall is one REST call as the simulated crawl HQ saw it.
 type HQCall struct {
-	Seq     int             `json:"seq"`
-	Step    int             `json:"step"`
-	Kind    string          `json:"kind"` // get add delete seencheck reset
-	N       int             `json:"n"`
-	Fault   string          `json:"fault,omitempty"`
-	Applied bool            `json:"applied"`
-	Lost    bool            `json:"lost,omitempty"`     // applied but the client never got the answer
-	URLs    []gocrawlhq.URL `json:"urls,omitempty"`     // payload received
-	Out     []gocrawlhq.URL `json:"returned,omitempty"` // what was returned
-	Arg     string          `json:"arg,omitempty"`
+	Seq     int               `json:"seq"`
+	Step    int               `json:"step"`
+	Kind    string            `json:"kind"` // get add delete seencheck reset
+	N       int               `json:"n"`
+	Fault   string            `json:"fault,omitempty"`
+	Applied bool              `json:"applied"`
+	Lost    bool              `json:"lost,omitempty"`     // applied but the client never got the answer
+	URLs    []gocrawlhq.URL   `json:"urls,omitempty"`     // payload received
+	Out     []gocrawlhq.URL   `json:"returned,omitempty"` // what was returned
+	Arg     string            `json:"arg,omitempty"`
+	Prior   map[string]string `json:"prior,omitempty"` // seencheck: how the store had seen each URL before this call
 }
 
 // HQModel is the stateful crawl-HQ service of the simulation.
@@ -42,20 +43,25 @@ type HQModel struct {
 	r      *e2e
 	mu     sync.Mutex
 	rows   []*hqRow
-	seen   map[string]bool
+	seen   map[string]string // URL -> "asset" | "seed": how the store has seen it so far (a seed / redirect target whose URL was only seen as an asset is new)
 	nextID int
 	counts map[string]int
 	Calls  []*HQCall
 }
 
 func installHQ(r *e2e) {
-	m := &HQModel{r: r, seen: map[string]bool{}, counts: map[string]int{}}
+	m := &HQModel{r: r, seen: map[string]string{}, counts: map[string]int{}}
 	for _, q := range r.sc.Queue {
 		m.rows = append(m.rows, &hqRow{ID: q.ID, Value: q.Value, Via: q.Via, Path: strings.Repeat("L", q.Hops), Status: "FRESH"})
 	}
 	if r.sc.HQ != nil {
 		for _, s := range r.sc.HQ.Seen {
-			m.seen[s] = true
+			// pre-seeded knowledge: every other URL is only known as an asset
+			if len(m.seen)%2 == 0 {
+				m.seen[s] = "asset"
+			} else {
+				m.seen[s] = "seed"
+			}
 		}
 	}
 	r.hq = m
@@ -231,9 +237,16 @@ func (m *HQModel) apply(call *HQCall, kind, arg string, body []byte, req *http.R
 		json.Unmarshal(body, &us)
 		call.URLs = us
 		var out []gocrawlhq.URL
+		call.Prior = map[string]string{}
 		for _, u := range us {
-			if !m.seen[u.Value] {
-				m.seen[u.Value] = true
+			prior := m.seen[u.Value]
+			call.Prior[u.Value] = prior
+			switch {
+			case prior == "":
+				m.seen[u.Value] = u.Type
+				out = append(out, u)
+			case prior == "asset" && u.Type == "seed":
+				m.seen[u.Value] = "seed" // promotion
 				out = append(out, u)
 			}
 		}
